@@ -337,7 +337,7 @@ func checkAPIKey(r *http.Request) *AuthToken {
 	token, ok := apiKeys[key]
 	if !ok {
 		log.Tracer(r.Context()).Tracef(
-			"api: provided api key %s... is unknown", key[:4],
+			"api: provided api key %.4s... is unknown", key,
 		)
 		return nil
 	}
